@@ -286,6 +286,37 @@ def check(ctx):
                        'presence nodes are created ephemeral=True')
     ctx.require(n >= 2, 'zkutils.create calls for presence nodes',
         rule='C17.1')
+    # the zkutils routines the service writes through create a node only
+    # where the caller's ephemeral flag reaches the client (zkutils.create);
+    # a refresh of an existing node (zkutils.update) creates nothing - a node
+    # re-created there would be persistent and owned by no session
+    zmod = index.module('treadmill.zkutils')
+    used = set()
+    for func in [sc, sd] + pres.live_functions():
+        for call in K.calls(func.node):
+            text = K.callee_text(call)
+            if text.startswith('zkutils.'):
+                used.add(text.split('.', 1)[1])
+    ctx.require('update' in used and 'create' in used,
+                'zkutils.create / zkutils.update used by the presence '
+                'service', rule='C17.1')
+    for name in sorted(used):
+        zfunc = zmod.functions.get(name)
+        if zfunc is None:
+            continue
+        for call in K.calls(zfunc.node):
+            if not (K.is_meth(call, 'create') and
+                    (K.recv_text(call) or '') == zfunc.params()[0]):
+                continue
+            eph = K.kwarg(call, 'ephemeral')
+            ok = isinstance(eph, ast.Name) and eph.id in zfunc.params()
+            ctx.ob('C17.1', zfunc, call, ok,
+                   'zkutils.%s creates a node only with the ephemeral flag '
+                   'of its caller' % name if ok else
+                   'zkutils.%s creates a node that is not ephemeral whatever '
+                   'the caller asked for: a presence node written through it '
+                   'outlives its session and is owned by nobody' % name,
+                   construct='zkutils.%s create passes ephemeral' % name)
     # registering never adopts a node that exists: after NodeExistsError the
     # only way to report success is a later create of our own
     for func in pres.live_functions():
